@@ -26,13 +26,13 @@ ASSUMPTIONS = ["envconfig's comma split of list values (modelled, validated by r
 
 
 def project(kind, ins, outs):
-    if kind == "smtp" and len(outs) >= 6:
+    if kind in ("smtp", "smtpdefer", "smtpallow", "asm") and len(outs) >= 6:
         return [outs[0], outs[4], outs[5]]
     return outs
 
 
 def nontrivial(kind, ins, outs):
-    if kind == "smtp":
+    if kind in ("smtp", "smtpdefer", "smtpallow", "asm"):
         return len(outs) >= 6 and (outs[4] != "-" or "550" in outs[0] or "552" in outs[0])
     if kind == "wild":
         p = bytes.fromhex(ins[0]) if ins[0] != "-" else b""
@@ -43,7 +43,7 @@ def nontrivial(kind, ins, outs):
 
 
 def shrink_candidates(inp):
-    if inp.startswith("smtp "):
+    if inp.split(" ", 1)[0] in ("smtp", "smtpdefer", "smtpallow"):
         from props import smtpcommon
         yield from smtpcommon.shrink_candidates(inp)
         return
